@@ -258,6 +258,8 @@ def run_costs(ctx: Ctx):
         varying = n % 5 == 4
         seq = {'k': 0}
         base = rng.choice([0.5, 1.0, 2.0, 4.0])
+        if n % 5 in (1, 2):      # costs that are not dyadic: cost * count / cost is not an integer in floating point (0.7 * 3 / 0.7 < 3)
+            base = (0.7, 0.1)[n % 5 - 1]
         log = []
 
         def model(inputs, _seq=seq, _base=base, _var=varying, _log=log):
@@ -266,7 +268,7 @@ def run_costs(ctx: Ctx):
             _log.append(c)
             return {'y': float(inputs['x']) ** 2, 'model_cost': c}
         comp = Component(model, [Variable('x', distribution='U(0, 1)')], [Variable('y')], name=f'cc{n}', vectorized=False,
-                         data_fidelity=(3,), training_data=SparseGrid(knots_per_level=rng.randint(1, 2)))
+                         data_fidelity=(3,), training_data=SparseGrid(knots_per_level=(3 if n % 5 in (1, 2) else rng.randint(1, 2))))
         system = System(comp, name=f'cs{n}')
         groups = []
         for b in range(rng.randint(2, 4)):
